@@ -932,7 +932,7 @@ func init() { registerExtra("C10", extraC10Stats) }
 func extraC10Stats(c *Ctx, r *Report) {
 	r.Rule("C10-R7", "the registry's statistics are recomputed from the current listings into containers made for that recomputation: a map stored into (or measured for) a field of the stats struct is created in the same call, never carried over from the previous statistics — otherwise endpoints that were removed, or whose latest listing is empty, keep being counted", 2)
 	for _, f := range c.Funcs {
-		if f.Parent() != nil || !strings.HasSuffix(fnPkgPath(f), pkgRegistry) || f.Signature.Recv() == nil {
+		if f.Parent() != nil || !strings.HasSuffix(fnPkgPath(f), pkgRegistry) || !ownsRegistryState(f) {
 			continue
 		}
 		eachInstr(f, func(in ssa.Instruction) {
